@@ -1,5 +1,5 @@
 CONSTANTS
-  Kind = "m"
+  Kind = "x"
   MaxE = 3
   MaxUR = 3
   MaxF = 0
